@@ -160,10 +160,10 @@ pub fn confirm(f: &crate::report::Finding) -> Option<bool> {
         "schedule" => {
             let sc = Scenario::from_json(f.replay.get("scenario")?)?;
             let choices: Vec<u16> = f.replay.get("choices")?.as_array()?.iter().filter_map(|x| x.as_u64().map(|y| y as u16)).collect();
-            if f.sig == "deadlock" {
-                return None;
+            let (vs, _, abnormal) = crate::schedmc::replay(&sc, &choices, Mon::of(&f.prop), false);
+            if f.msg.starts_with("deadlock") {
+                return Some(abnormal.map_or(false, |a| a.contains("Deadlock")));
             }
-            let (vs, _, _) = crate::schedmc::replay(&sc, &choices, Mon::of(&f.prop), false);
             Some(vs.iter().any(|v| v.prop == f.prop && v.sig == f.sig))
         }
         _ => None,
@@ -648,6 +648,30 @@ pub fn run_c11(tier: Tier, budget: Duration, frag: &mut Frag) {
                     replay: json!({}),
                     size: 0,
                 });
+            }
+        }
+    }
+    // a stage inside a batch that is itself inside a batch: the user-supplied pool has enough threads,
+    // the default pool (which such a batch silently creates for itself, finding KF3) has one too few
+    for w in [2usize, 3] {
+        let inner = wide_stage(w);
+        let mid = vec![Op::Batch(crate::spec::BatchSpec { name: "n".into(), deps: vec![], ctrl: crate::spec::CtrlData::Unit, times: 1, multi: false, fetch_data: false, inner })];
+        let top = vec![Op::Batch(crate::spec::BatchSpec { name: "b".into(), deps: vec![], ctrl: crate::spec::CtrlData::Unit, times: 1, multi: false, fetch_data: false, inner: mid })];
+        let mut s = Scenario::plain(top, Mode::Dispatch, 1);
+        s.user_pool = Some(w + 1);
+        s.default_threads = Some(w - 1);
+        s.rendezvous = Some(((2..2 + w).collect(), w as u16));
+        let opts = ExploreOpts { bounds: vec![0, 1], all_points: false, deadline, max_execs: u64::MAX, keep_traces: 0, deadlock_prop: Some("C11"), delay_mode: false };
+        let r = run_scenarios(&[s], mon, &opts);
+        frag.states += r.nodes;
+        frag.transitions += r.transitions;
+        frag.parts.push(json!({"engine":"E2 schedmc","scenarios": format!("stage of width {} inside a batch inside a batch; user-supplied pool of {} threads, default pool of {}", w, w + 1, w - 1), "schedules": r.executions, "deadlocks": r.deadlocks}));
+        for ((p, _), (mut f, _)) in r.col.best {
+            if p == "C11" {
+                f.sig = "nested-batch-ignores-shared-pool".into();
+                frag.col.add(f);
+            } else if p == "MACHINERY" {
+                frag.col.add(f);
             }
         }
     }
